@@ -33,6 +33,8 @@ pub struct Task {
     /// Waiting for submission queue space (poll returned Pending without an
     /// SQE having been published).
     pub blocked_on_sq: bool,
+    /// Signal notifier (index) this task borrows.
+    pub sig: Option<usize>,
 }
 
 /// A `ReadBuf` held by the application, with its reference model.
@@ -75,6 +77,8 @@ pub struct Profile {
     pub sqpoll: bool,
     pub never_complete: bool,
     pub force_pool: bool,
+    /// Create signal notifiers and a second ring (for the kinds needing them).
+    pub extras: bool,
 }
 
 pub const BASE: Profile = Profile {
@@ -104,6 +108,7 @@ pub const BASE: Profile = Profile {
     sqpoll: true,
     never_complete: false,
     force_pool: false,
+    extras: true,
 };
 
 pub struct Engine {
@@ -156,6 +161,7 @@ pub fn draw_kcfg(faults: bool) -> KCfg {
     c.p_complete_in_wait = if sw(50) { 50 } else { 0 };
     c.p_zc_notif_same_batch = tape::pick(site::CFG, &[50, 0, 100]);
     c.p_close_err = if sw(15) { 30 } else { 0 };
+    c.p_pipe_einval = if sw(25) { 40 } else { 0 };
     c.p_sync_cancel_finish = if sw(30) { 50 } else { 0 };
     c
 }
@@ -220,6 +226,8 @@ impl Engine {
             fds: Vec::new(),
             pools: Vec::new(),
             direct_enabled: direct,
+            other: None,
+            signals: Vec::new(),
         };
         for _ in 0..(1 + tape::choose(site::GEOM, 3)) {
             w.new_fd();
@@ -233,6 +241,41 @@ impl Engine {
             }
         }
         let ring_id = kernel::with(|k| k.rings.len() - 1);
+        ops::tracked_reset();
+        if prof.extras && prof.kinds.iter().any(|k| k.needs_signals()) && tape::chance(site::GEOM, 1, 3) {
+            // A real signalfd for a harmless signal; its reads go to the stub.
+            for _ in 0..(1 + tape::choose(site::GEOM, 2)) {
+                match alloc::a10(|| a10::process::Signals::from_signals(w.sq.clone(), [a10::process::Signal::USER2])) {
+                    Ok(sig) => {
+                        let dbg = format!("{sig:?}");
+                        let n: i32 = dbg
+                            .split("fd: ")
+                            .nth(2)
+                            .and_then(|r| r.split(',').next())
+                            .and_then(|n| n.trim().parse().ok())
+                            .unwrap_or(-1);
+                        kernel::with(|k| {
+                            k.foreign_fds.push(n);
+                            k.full_only.push(n);
+                        });
+                        w.signals.push(Some(Box::new(sig)));
+                    }
+                    Err(e) => report::harness_error(format!("signalfd: {e}")),
+                }
+            }
+        }
+        if prof.extras && prof.kinds.iter().any(|k| k.needs_other_ring()) && tape::chance(site::GEOM, 1, 4) {
+            let keep = kernel::with(|k| k.cfg.clone());
+            kernel::with(|k| {
+                k.cfg.sq_start = 0;
+                k.cfg.cq_start = 0;
+            });
+            match alloc::a10(|| a10::Ring::config().with_submission_queue_size(2).build()) {
+                Ok(r) => w.other = Some(r),
+                Err(e) => report::harness_error(format!("second ring: {e}")),
+            }
+            kernel::with(|k| k.cfg = keep);
+        }
         Engine {
             prof,
             w: std::mem::ManuallyDrop::new(w),
@@ -258,7 +301,7 @@ impl Engine {
         kernel::with(|k| {
             k.records
                 .iter()
-                .filter(|r| r.by_op == id && r.during == During::Poll)
+                .filter(|r| r.by_op == id && r.during == During::Poll && r.user_data > 3)
                 .cloned()
                 .collect()
         })
@@ -303,7 +346,9 @@ impl Engine {
             .iter()
             .copied()
             .filter(|k| {
-                (!k.needs_pool() || !self.w.pools.is_empty())
+                (!k.needs_signals() || self.w.signals.iter().any(Option::is_some))
+                    && (!k.needs_other_ring() || self.w.other.is_some())
+                    && (!k.needs_pool() || !self.w.pools.is_empty())
                     && (!k.needs_direct_table() || self.w.direct_enabled)
                     && (!k.needs_fd() || !self.w.live_fds().is_empty())
             })
@@ -330,7 +375,28 @@ impl Engine {
         } else {
             None
         };
-        let pool = if kind.needs_pool() { Some(0) } else { None };
+        let pool = if kind.needs_pool() {
+            Some(0)
+        } else if kind.needs_signals() {
+            // Index of a live signal notifier; not one a live task borrows when
+            // the operation consumes it.
+            let consuming = kind != Kind::ReceiveSignal;
+            let cands: Vec<usize> = (0..self.w.signals.len())
+                .filter(|i| self.w.signals[*i].is_some())
+                .filter(|i| !consuming || !self.tasks.iter().any(|t| !t.dropped && t.sig == Some(*i)))
+                .filter(|i| {
+                    // Converting a direct descriptor again is a documented misuse.
+                    kind != Kind::SignalsToDirect
+                        || !format!("{:?}", self.w.signals[*i]).contains("Direct")
+                })
+                .collect();
+            if cands.is_empty() {
+                return;
+            }
+            Some(cands[tape::choose(site::TARGET, cands.len() as u32) as usize])
+        } else {
+            None
+        };
         let id = self.tasks.len() as u32;
         let old = kernel::set_cur(id, During::Other);
         let made = ops::make(&mut self.w, kind, fd, pool, (id as u8).wrapping_mul(17).wrapping_add(1));
@@ -354,6 +420,7 @@ impl Engine {
             outputs: Vec::new(),
             matched: 0,
             blocked_on_sq: false,
+            sig: if kind == Kind::ReceiveSignal { pool } else { None },
         });
     }
 
@@ -395,6 +462,10 @@ impl Engine {
             match p {
                 Produced::Fd(fd) => {
                     let (n, d) = ops::fd_num(&fd);
+                    if !d && n > 2 && n < kernel::FD_BASE {
+                        // A real descriptor (pipe2(2) fallback): closed for real.
+                        kernel::with(|k| k.foreign_fds.push(n));
+                    }
                     kernel::with(|k| k.mark_delivered(self.ring_id, n, d));
                     let slot = self.w.add_fd(fd);
                     ev!("h op#{id} produced descriptor -> fd-slot {slot}");
@@ -403,7 +474,7 @@ impl Engine {
                     let model = b.as_slice().to_vec();
                     self.bufs.push(HeldBuf { buf: b, model });
                 }
-                Produced::Signals(s) => ops::drop_produced(Produced::Signals(s)),
+                Produced::Signals(s) => self.w.signals.push(Some(Box::new(s))),
             }
         }
         match res {
@@ -441,7 +512,7 @@ impl Engine {
                 self.tasks[i].last_pending = false;
                 self.tasks[i].last_item = is_iter;
                 self.tasks[i].blocked_on_sq = false;
-                if !is_iter {
+                if !is_iter || (self.tasks[i].kind == Kind::ReceiveSignals && out.is_err()) {
                     self.tasks[i].finished = true;
                 }
                 self.tasks[i].outputs.push(out.clone());
@@ -492,7 +563,8 @@ impl Engine {
 
     fn check_restarts(&self, i: usize) {
         let t = &self.tasks[i];
-        if ops::is_composite(t.kind) {
+        // `ReceiveSignals` is a series of single reads, one per item.
+        if ops::is_composite(t.kind) || t.kind == Kind::ReceiveSignals {
             return;
         }
         let recs = Self::recs(t.id);
@@ -542,6 +614,21 @@ impl Engine {
     fn check_output(&mut self, i: usize, out: &Out) {
         let t = &self.tasks[i];
         if ops::is_composite(t.kind) {
+            return;
+        }
+        if matches!(t.kind, Kind::Pipe | Kind::PipeDirect)
+            && Self::recs(t.id).last().is_some_and(|r| r.cqes.last().is_some_and(|c| c.0 == -libc::EINVAL))
+        {
+            // The kernel does not know IORING_OP_PIPE: a10 falls back to
+            // pipe2(2), which only creates regular descriptors.
+            match out {
+                Ok(Val::Fds(v)) if v.len() == 2 && v.iter().all(|(n, d)| !d && *n > 2) => {}
+                other => violation(
+                    "fd.wrong-kind",
+                    format!("{} (op#{}): pipe2(2) fallback must yield two regular descriptors, got {other:?}", t.name, t.id),
+                ),
+            }
+            self.tasks[i].matched += 1;
             return;
         }
         self.check_restarts(i);
@@ -679,7 +766,9 @@ impl Engine {
         let t = &self.tasks[i];
         let cancels: Vec<&Sqe> = sqes.iter().filter(|s| s.opcode() == OP_ASYNC_CANCEL).collect();
         for s in &sqes {
-            if s.opcode() != OP_ASYNC_CANCEL {
+            // Operations that own descriptors close them when dropped.
+            let owns_fd = matches!(t.kind, Kind::ReceiveSignals | Kind::SignalsToDirect);
+            if s.opcode() != OP_ASYNC_CANCEL && !(owns_fd && s.opcode() == OP_CLOSE) {
                 violation(
                     "cancel.wrong-target",
                     format!("dropping {} (op#{id}) submitted a {}", t.name, op_name(s.opcode())),
@@ -743,7 +832,7 @@ impl Engine {
         ev!("h ring.poll({timeout:?}) -> {res:?}");
         if let Err(e) = &res {
             let code = e.raw_os_error().unwrap_or(0);
-            if code != libc::EBUSY && code != libc::EINTR {
+            if code != libc::EBUSY && code != libc::EINTR && code != libc::EAGAIN {
                 violation("panic", format!("Ring::poll failed: {e}"));
             }
         }
@@ -779,7 +868,10 @@ impl Engine {
                 continue;
             }
             let (items, complete, last_done) = self.script(i);
-            let ready = if t.kind.is_iter() {
+            let ready = if t.kind == Kind::ReceiveSignals {
+                // A series of single reads: ready when the latest one is done.
+                items.len() > t.matched && !self.unconsumed(t.id)
+            } else if t.kind.is_iter() {
                 items.len() > t.matched || (complete && last_done)
             } else {
                 // Also ready when an attempt was interrupted: the future has
@@ -857,6 +949,7 @@ impl Engine {
                 outputs: Vec::new(),
                 matched: 0,
                 blocked_on_sq: false,
+                sig: None,
             });
         } else {
             ev!("h drop fd-slot {f} ({}) room={room}", ops::canon_fd(n, d));
@@ -1095,6 +1188,7 @@ impl Engine {
             outputs: Vec::new(),
             matched: 0,
             blocked_on_sq: false,
+            sig: None,
         });
     }
 
@@ -1221,6 +1315,7 @@ impl Engine {
                 outputs: Vec::new(),
                 matched: 0,
                 blocked_on_sq: false,
+                sig: None,
             });
             self.poll_task(first + n as usize);
         }
@@ -1336,6 +1431,12 @@ impl Engine {
             };
         });
         self.faults_on = false;
+        // Endless streams never finish by themselves: abandon them now.
+        for i in 0..self.tasks.len() {
+            if self.tasks[i].kind == Kind::ReceiveSignals && !self.tasks[i].dropped {
+                self.drop_task(i);
+            }
+        }
         let bound = 6 * (self.tasks.len() + 4);
         for _round in 0..bound {
             // Poll every task the executor is allowed to poll.
@@ -1448,6 +1549,8 @@ impl Engine {
                     }
                 }
                 'F' => {
+                    let sigs = std::mem::take(&mut self.w.signals);
+                    alloc::a10(|| drop(sigs));
                     for f in self.w.live_fds() {
                         let fd = self.w.fds[f].take().unwrap();
                         if ring_gone {
@@ -1468,6 +1571,9 @@ impl Engine {
                 }
                 _ => {
                     self.drop_ring();
+                    if let Some(o) = self.w.other.take() {
+                        alloc::a10(|| drop(o));
+                    }
                     ring_gone = true;
                 }
             }
@@ -1483,7 +1589,9 @@ impl Engine {
             }
             ev!("h drop ring (in flight: {inflight})");
             let old = kernel::set_cur(NO_OP, During::Other);
+            kernel::with(|k| k.in_ring_drop = true);
             alloc::a10(|| drop(ring));
+            kernel::with(|k| k.in_ring_drop = false);
             kernel::set_cur(old.0, old.1);
             self.ring_alive = false;
         }
@@ -1619,6 +1727,19 @@ pub fn final_checks(r: usize, expect_clean_fds: bool, ring_first: bool) {
 /// Leak check: blocks allocated by a10 (or handed to it) during the run that
 /// are still live.
 pub fn check_leaks() {
+    let (created, twice, never) = ops::tracked_summary();
+    if twice > 0 {
+        violation(
+            "mem.double-free",
+            format!("{twice} of {created} user buffers handed to operations were dropped more than once"),
+        );
+    }
+    if never > 0 {
+        violation(
+            "mem.leak",
+            format!("{never} of {created} user buffers handed to operations were never dropped"),
+        );
+    }
     let leaks = alloc::leaks();
     if !leaks.is_empty() {
         let total: usize = leaks.iter().map(|l| l.1).sum();
